@@ -11,3 +11,6 @@ var (
 	ErrDataTooSmall     = errors.New("AES256IGE: data too small")
 	ErrDataNotDivisible = errors.New("AES256IGE: data not divisible by block size")
 )
+
+// ErrAuthKeyTooShort: the auth key is shorter than the 128 (136 for a received packet) bytes the key derivation reads
+var ErrAuthKeyTooShort = errors.New("AES256IGE: auth key is too short")
